@@ -159,7 +159,7 @@ def main(tier, replay):
     if jobs:
         j0 = [j for j in jobs if j['name'].startswith('regen-rwide')] or jobs[:1]
         jobs.append({'name': 'sens-unrelated', 'pkg': j0[0]['pkg'], 'func': 'HarnessRegen', 'args': [2, 1, 0, 1, 1], 'opt': dict(j0[0]['opt']), 'expect': 'exactly the written values'})
-    out = run_program_jobs(c, mod, infos, jobs, native_templates=['gpair_native.go.tmpl'])
+    out = run_program_jobs_batched(c, mod, infos, jobs, batch=180, native_templates=['gpair_native.go.tmpl'])
     for n, why in struct_viol:
         v = {'label': 'regenerated struct has the same columns, nesting, optionality and types', 'kind': 'concrete', 'msg': why, 'notes': [P[n].canon()]}
         job = {'name': 'struct-%s %s' % (n, P[n].canon()), 'pkg': 'scratch/' + n, 'func': '-', 'args': []}
